@@ -1230,3 +1230,131 @@ Proof.
   destruct (transform_ok_new _ _ _ _ E) as [k [nv [cs [hd ->]]]]. simpl.
   rewrite app_length. simpl. split; [lia|reflexivity].
 Qed.
+
+(* ------------------------------------------------------------------ *)
+(* statements over all histories (used by Prop_C19_alias.v)              *)
+(* ------------------------------------------------------------------ *)
+Lemma run_objects_separate : forall lv h,
+  let s := al_run lv h in
+  (forall g1 g2 o1 o2 l, g1 <> g2 -> nth_error (s_objs s) g1 = Some o1 -> nth_error (s_objs s) g2 = Some o2 ->
+                         In l (oclauses o1) -> ~ In l (oclauses o2)) /\
+  (forall g o, nth_error (s_objs s) g = Some o -> NoDup (oclauses o)) /\
+  (forall g1 g2 o1 o2, g1 <> g2 -> nth_error (s_objs s) g1 = Some o1 -> nth_error (s_objs s) g2 = Some o2 ->
+                       ohdr o1 <> ohdr o2).
+Proof.
+  intros lv h s. pose proof (run_wf lv h) as W. fold s in W. repeat split.
+  - apply (wf_disj s W).
+  - apply (wf_nodup s W).
+  - apply (wf_hdr_inj s W).
+Qed.
+
+Lemma run_client_separated : forall lv h,
+  forallb (op_tame lv) h = true ->
+  let s := al_run lv h in
+  forall g o l, nth_error (s_objs s) g = Some o -> In l (s_held s) -> ~ In l (obj_reach (s_heap s) o).
+Proof. intros lv h Ht s g o l Hg Hl. eapply sep_not_reach; eauto. apply run_sep. exact Ht. Qed.
+
+Lemma run_client_separated_repaired : forall h,
+  let s := al_run repaired h in
+  forall g o l, nth_error (s_objs s) g = Some o -> In l (s_held s) -> ~ In l (obj_reach (s_heap s) o).
+Proof. intros h. apply run_client_separated. apply tame_repaired. Qed.
+
+Lemma run_frame : forall lv h op g,
+  let s := al_run lv h in
+  g < List.length (s_objs s) -> touches s op g = false -> aval (al_step lv s op) g = aval s g.
+Proof. intros lv h op g s Hg Ht. apply step_frame; auto. apply run_wf. Qed.
+
+Lemma run_mutation_invisible : forall lv h hnd m g,
+  forallb (op_tame lv) h = true ->
+  aval (al_step lv (al_run lv h) (OMut hnd m)) g = aval (al_run lv h) g.
+Proof. intros lv h hnd m g Ht. apply mutation_invisible; [apply run_wf|apply run_sep; exact Ht]. Qed.
+
+Lemma run_mutation_invisible_repaired : forall h hnd m g,
+  aval (al_step repaired (al_run repaired h) (OMut hnd m)) g = aval (al_run repaired h) g.
+Proof. intros. apply run_mutation_invisible. apply tame_repaired. Qed.
+
+Lemma run_transformation_pure : forall lv h t f g,
+  let s := al_run lv h in
+  g < List.length (s_objs s) -> aval (al_step lv s (OTransform t f)) g = aval s g.
+Proof. intros lv h t f g s Hg. apply run_frame; auto. Qed.
+
+Lemma run_suffix_frame : forall lv h h2 g,
+  let s := al_run lv h in
+  g < List.length (s_objs s) -> untouched lv s h2 g = true ->
+  aval (al_run lv (h ++ h2)) g = aval s g.
+Proof.
+  intros lv h h2 g s Hg Hu. unfold al_run. rewrite fold_left_app. apply suffix_frame; auto. apply run_wf.
+Qed.
+
+Lemma run_arguments_unchanged : forall lv h op hnd l,
+  let s := al_run lv h in
+  is_mut op = false -> handle_loc s hnd = Some l ->
+  handle_loc (al_step lv s op) hnd = Some l /\ cell_val (s_heap (al_step lv s op)) l = cell_val (s_heap s) l.
+Proof. intros lv h op hnd l s Hm Hl. apply step_arguments_unchanged; auto. apply run_wf. Qed.
+
+(* ---- the code as found: witnesses ---- *)
+Definition wit_iter : list aop :=
+  [ONewFormula KCnf []; ONewList [1; 2]%Z; OAddClause 0 0 true; OIter 0].
+Definition wit_slice : list aop :=
+  [ONewFormula KCnf []; ONewList [1; 2]%Z; OAddClause 0 0 true; OSlice 0 0 1].
+Definition wit_pair : list aop :=
+  [ONewFormula KOpb []; ONewFormula KOpb []; ONewList [1; 2]%Z; ONewPb [TsRef 0] PGe 1%Z;
+   OAddConstraint 0 1 true; OAddConstraint 1 1 true].
+
+Lemma as_found_client_holds_internal_list :
+  exists h g o l, nth_error (s_objs (al_run as_found h)) g = Some o /\ In l (s_held (al_run as_found h)) /\
+                  In l (obj_reach (s_heap (al_run as_found h)) o).
+Proof. exists wit_iter, 0, (mkobj KCnf 2%Z [1] 0), 1. vm_compute. repeat split; auto. Qed.
+
+Lemma as_found_iteration_mutation_visible :
+  exists h hnd m g, aval (al_step as_found (al_run as_found h) (OMut hnd m)) g <> aval (al_run as_found h) g.
+Proof. exists wit_iter, 1, (MAppend 7%Z), 0. vm_compute. intro H. discriminate H. Qed.
+
+Lemma as_found_slice_mutation_visible :
+  exists h hnd m g, aval (al_step as_found (al_run as_found h) (OMut hnd m)) g <> aval (al_run as_found h) g.
+Proof. exists wit_slice, 1, (MSet 0 (-2)%Z), 0. vm_compute. intro H. discriminate H. Qed.
+
+(* a two-element list passed as a pair: the client still holds it, and ONE edit changes TWO formulas *)
+Lemma as_found_pair_shared :
+  exists h hnd m, aval (al_step as_found (al_run as_found h) (OMut hnd m)) 0 <> aval (al_run as_found h) 0 /\
+                  aval (al_step as_found (al_run as_found h) (OMut hnd m)) 1 <> aval (al_run as_found h) 1.
+Proof. exists wit_pair, 0, (MSet 1 99%Z). vm_compute. split; intro H; discriminate H. Qed.
+
+Lemma as_found_number_of_variables_stale :
+  exists h hnd m, match aval (al_step as_found (al_run as_found h) (OMut hnd m)) 0 with
+                  | Some (_, nv, [VLits c], _) => (nv <? max_var_clause c)%Z = true
+                  | _ => False
+                  end.
+Proof. exists wit_iter, 1, (MAppend 7%Z). vm_compute. reflexivity. Qed.
+
+(* ---- non-vacuity ---- *)
+Definition ex_hdr : header := [(KO "description", "d")]%string.
+Definition ex_history : list aop :=
+  [ONewFormula KCnf ex_hdr; ONewList [1; -2; 3]%Z; OAddClause 0 0 true; OMut 0 (MNeg 1);
+   OAddLinear 0 0 CNe 1%Z true; OMut 0 (MAppend 0%Z); OAddClause 0 0 true;
+   OGetItem 0 0; OMut 1 MClear; OIter 0; OMut 2 (MSet 0 5%Z);
+   OTransform TFlip 0; OHdrSet 1 (KO "note") "scribble"%string; OAddClause 1 0 false;
+   ONewFormula KOpb []; ONewList [2; 3]%Z; ONewPb [TsTup 1 1; TsRef 6] PGe 1%Z; OAddConstraint 2 7 true;
+   OMut 6 (MSet 1 (-3)%Z)].
+
+Definition ex_tame_history : list aop :=
+  [ONewFormula KCnf ex_hdr; ONewList [1; -2; 3]%Z; OAddClause 0 0 true; OMut 0 (MNeg 1);
+   OAddLinear 0 0 CNe 1%Z true; OMut 0 (MAppend 0%Z); OAddClause 0 0 true;
+   OGetItem 0 0; OMut 1 MClear; OMut 0 MPop;
+   OTransform TFlip 0; OHdrSet 1 (KO "note") "scribble"%string; OAddClause 1 0 false; OMut 0 MReverse;
+   ONewFormula KOpb []; ONewPb [TsTup 1 1; TsTup (-2) 3] PLt 1%Z; OAddConstraint 2 2 true;
+   OMut 2 (MTermSet 0 5 5)].
+
+(* the statements are not true of the state type by construction: a state in which two objects share a list
+   (what a transformation that kept `clauses` by reference would produce) violates them *)
+Definition shared_state : astate :=
+  mkst [HLits [1; 2]%Z] [[]; []] [mkobj KCnf 2%Z [0] 0; mkobj KCnf 2%Z [0] 1] [].
+
+Lemma sharing_is_expressible :
+  ~ wf shared_state /\
+  aval (ustep shared_state (UMut 0 (MAppend 3%Z))) 0 <> aval shared_state 0 /\
+  aval (ustep shared_state (UMut 0 (MAppend 3%Z))) 1 <> aval shared_state 1.
+Proof.
+  split; [|split; vm_compute; intro H; discriminate H].
+  intro W. apply (wf_disj shared_state W 0 1 (mkobj KCnf 2%Z [0] 0) (mkobj KCnf 2%Z [0] 1) 0); simpl; auto.
+Qed.
